@@ -135,7 +135,7 @@ def run_workers_subset(modname, keep, tier, walls, known_keys, jobs):
 def finish(pid, tier, seed, mod, insts, keep, results, known, wall):
     agg = dict(paths=0, nontrivial_paths=0, infeasible=0, checks=0, trivial=0, discharged=0, sat=0, inconclusive=0,
                queries=0, solver_s=0.0, budget_hit=0, harness_errors=0, unsupported=0, unknown_feasibility=0,
-               skipped_after_cap=0, known_sat=0)
+               skipped_after_cap=0, known_sat=0, extra_cases=0, masked_by_known_region=0)
     cut = {}
     per_check = {}
     functions = set()
@@ -168,7 +168,7 @@ def finish(pid, tier, seed, mod, insts, keep, results, known, wall):
         for k, v in st.get("cut", {}).items():
             cut[k] = cut.get(k, 0) + v
         for k, v in r.get("checks", {}).items():
-            pc = per_check.setdefault(k, dict(evaluated=0, trivial=0, discharged=0, sat=0, inconclusive=0, known=0))
+            pc = per_check.setdefault(k, dict(evaluated=0, trivial=0, discharged=0, sat=0, inconclusive=0, known=0, masked=0))
             for kk in pc:
                 pc[kk] += v.get(kk, 0)
         functions.update(r.get("functions", []))
@@ -196,6 +196,9 @@ def finish(pid, tier, seed, mod, insts, keep, results, known, wall):
                               wall_s=r.get("wall_total_s")))
     # ---- report
     os.makedirs(os.path.join(OUT, "replays"), exist_ok=True)
+    for f in os.listdir(os.path.join(OUT, "replays")):      # stale counterexamples of earlier runs of this property
+        if f.startswith(pid + "-") and f.endswith(".json"):
+            os.unlink(os.path.join(OUT, "replays", f))
     os.makedirs(os.path.join(OUT, "evidence"), exist_ok=True)
     lines = []
     for k, hits in sorted(known_hits.items()):
@@ -217,7 +220,7 @@ def finish(pid, tier, seed, mod, insts, keep, results, known, wall):
         vio_files.append(path)
         print("VIOLATION property=%s replay=%s" % (pid, path))
         print("  check=%s instance=%s witness=%s" % (v["check"], v["instance"], json.dumps(v["witness"])[:400]))
-    distinct = agg["nontrivial_paths"] + int(getattr(mod, "EXTRA_NONTRIVIAL", 0))
+    distinct = agg["nontrivial_paths"] + agg["extra_cases"]
     evaluations = agg["checks"]
     explanation = getattr(mod, "EXPLANATION", "")
     cov = dict(
@@ -225,7 +228,8 @@ def finish(pid, tier, seed, mod, insts, keep, results, known, wall):
         distinct_nontrivial=distinct,
         rule=("one evaluation = one assertion query over a symbolic path of the real code (solver asked for pc AND NOT assertion); "
               "distinct_nontrivial = feasible symbolic paths (distinct decision sequences, path condition satisfiable) on which at least "
-              "one assertion was evaluated; each path stands for all real inputs satisfying its path condition"),
+              "one assertion was evaluated, plus distinct obligations counted by the harness inside a path (e.g. one rooted tree x method); "
+              "each stands for all real inputs satisfying its path condition"),
         samples=samples[:24] if samples else [dict(note="no completed path")],
         explanation=explanation,
         exhaustive=bool(exhaustive and not problems),
@@ -235,6 +239,7 @@ def finish(pid, tier, seed, mod, insts, keep, results, known, wall):
         discharged_syntactically=agg["trivial"],
         sat=agg["sat"],
         inconclusive=agg["inconclusive"] + agg["skipped_after_cap"],
+        masked_by_known_region=agg["masked_by_known_region"],
         not_reproduced_on_float_code=len(not_repro),
         not_reproduced=not_repro[:10],
         paths=agg["paths"], infeasible_prefixes=agg["infeasible"], cut_paths=cut, budget_hit=agg["budget_hit"],
